@@ -46,7 +46,9 @@ for nm, which, fn, target, d in W:
         if which >= 2 and n == 0:
             continue
         for pat in range(0, 1 << n):
-            tier = 'quick' if (n <= 2 and pat == (1 << n) - 1) else 'thorough'
+            allnum = (pat == (1 << n) - 1)
+            # error patterns (a non-numeric operand) cost 80-500 s each and fail from 3 operands on: thorough tier, n <= 2 only
+            tier = 'quick' if (n <= 2 and allnum) else ('thorough' if (allnum or n <= 2) else 'off')
             dom = 'every double' if which >= 2 else 'a 16-value grid of concrete doubles per operand'
             pats = ''.join('N' if (pat >> i) & 1 else 'x' for i in range(n)) or 'empty'
             h = 'k_c10_fold_%s_%d_%s' % (nm, n, pats)
